@@ -886,13 +886,18 @@ static Case genCase(Rng& rng, double pBig, Flags& fl) {
             auto after = replay(cs);
             bool ok = after->refusal.empty() && after->finite && intsInRange(*after);
             if (ok && sec == 'E') {
-                // explicit pore volumes and EDIT pore volume multipliers are not combined (the documentation does not order them)
-                bool porvTouched = false, mpvEdit = false;
+                // Explicit pore volumes and EDIT pore volume multipliers are combined only with every multiplier entered after the
+                // last operation on PORV: then "the multiplier scales the pore volumes entered so far" and "multipliers act when the
+                // section ends" (the library's rule) agree, and the GRID section multiplier must count exactly once.
+                bool mpvEdit = false, porvAfterMpv = false;
                 for (auto& o : cs.ops) if (o.sec == 'E') {
-                    if (o.kind == K_DIRECT) { porvTouched = porvTouched || o.kw == "PORV"; mpvEdit = mpvEdit || o.kw == "MULTPV"; }
-                    for (auto& r : o.recs) { porvTouched = porvTouched || r.a == "PORV" || r.b == "PORV"; mpvEdit = mpvEdit || r.a == "MULTPV"; }
+                    bool porvHere = false, mpvHere = false;
+                    if (o.kind == K_DIRECT) { porvHere = o.kw == "PORV"; mpvHere = o.kw == "MULTPV"; }
+                    for (auto& r : o.recs) { porvHere = porvHere || r.a == "PORV" || r.b == "PORV"; mpvHere = mpvHere || r.a == "MULTPV"; }
+                    if (porvHere && mpvEdit) porvAfterMpv = true;
+                    mpvEdit = mpvEdit || mpvHere;
                 }
-                if (porvTouched && mpvEdit) ok = false;
+                if (porvAfterMpv) ok = false;
             }
             if (!ok && fl.expectRefusal && made + 1 == quota[qi] && !after->refusal.empty() && after->finite) { stop = true; break; }
             if (!ok) { cs.ops.pop_back(); continue; }
